@@ -212,7 +212,7 @@ func (c CounterStyle) renderValue(counterValue int, counter *CounterStyleDescrip
 	case "alphabetic":
 		initial, ok = alphabetic(counter.Symbols, counterValue)
 		if !ok {
-			return c.RenderValue(counterValue, "decimal")
+			return c.renderValue(counterValue, c.resolveCounter(counter.fallback(), previousTypes), previousTypes)
 		}
 	case "numeric":
 		initial, ok = numeric(counter.Symbols, counterValue)
@@ -290,7 +290,8 @@ func symbolic(symbols []pr.NamedString, value int) (string, bool) {
 // Implement the algorithm for `type: alphabetic`.
 func alphabetic(symbols []pr.NamedString, value int) (string, bool) {
 	L := len(symbols)
-	if L < 2 {
+	if L < 2 || value < 1 {
+		// the system is defined over strictly positive values only
 		return "", false
 	}
 	reversedParts := []string{}
